@@ -232,7 +232,13 @@ func drawWorld06(r *rng.R) *Case {
 			mi := r.Intn(len(rms))
 			rm := rms[mi]
 			seq := r.Range(2, 8)
+			if r.Chance(1, 20) {
+				seq = []int{17, 33, 65, 130}[r.Intn(4)] // long sequences: step counters, preallocated outputs, chunked loops
+			}
 			batch := r.Range(1, 3)
+			if r.Chance(1, 12) {
+				batch = r.Range(4, 9)
+			}
 			cuts := drawCuts(r, seq)
 			whole, pieces := buildSession(r, rm, mi, seq, batch, cuts)
 			sess := Session{Task: ti, Model: mi, Kind: rm.cfg.Kind, Whole: whole, Cuts: cuts, Config: rm.cfg.String()}
